@@ -108,11 +108,16 @@ Definition check_ct (d2r : Q) (tab : list (ct_key * list (Q * Q))) (p : ct_param
   end.
 
 (* ---- calibrate ---- *)
-(* fast evaluator of segs_integral with reduced fractions; proved == in Proofs/C16_Check.v *)
+(* fast evaluator of segs_integral: reduced fractions, and segments that lie entirely to one side of
+   [a,b] are skipped (their contribution is zero); proved == in Proofs/C16_Check.v *)
+Definition seg_outside (x0 x1 a b : Q) : bool :=
+  Qle_bool x0 x1 && ((Qle_bool a x0 && Qle_bool b x0) || (Qle_bool x1 a && Qle_bool x1 b)).
+
 Fixpoint segs_integral_red (xs ys : list Q) (a b : Q) : Q :=
   match xs, ys with
   | x0 :: ((x1 :: _) as xt), y0 :: ((y1 :: _) as yt) =>
-    Qred (Qred (seg_integral x0 y0 x1 y1 a b) + segs_integral_red xt yt a b)
+    if seg_outside x0 x1 a b then segs_integral_red xt yt a b
+    else Qred (Qred (seg_integral x0 y0 x1 y1 a b) + segs_integral_red xt yt a b)
   | _, _ => 0
   end.
 Definition pl_integral_red (xs ys : list Q) (a b : Q) : Q :=
